@@ -2,14 +2,15 @@
    run event by event with the same stimuli and manager answers as the real PeerHandler; what
    the task wrote to the connection, told the manager and wrote to disk is compared per event.
    The oracles look at the implementation's observations only. *)
-From Rdest Require Import Base Consts Wire Manager Handler.
+From Rdest Require Import Base Consts Wire Manager Handler Stats HStats.
 Open Scope N_scope.
 
 Inductive stim :=
 | SStart | SMsg (m : msg) | SBad                 (* bytes that make recv_frame fail *)
 | STicks (k : N)                                   (* the clock crossed k keep-alive boundaries *)
 | SBHave (i : N) | SBOwn (b : option bool) | SClose | SStore (i : N) (bad : bool) | SNop
-| SThen (s : stim) (k : N).                        (* s, then k keep-alive boundaries while things settled *)
+| SThen (s : stim) (k : N)                         (* s, then k keep-alive boundaries while things settled *)
+| SBurst (m : msg) (k : N) (bad : bool).           (* one write carrying k >= 1 copies of m, then (bad) bytes that make recv_frame fail *)
 Definition base_of (s : stim) : stim := match s with SThen s' _ => s' | _ => s end.
 Definition ticks_of (s : stim) : N := match s with SThen _ k => k | STicks k => k | _ => 0 end.
 
@@ -26,7 +27,13 @@ Record obs := mkobs {
   ob_sent : bytes;
   ob_cmds : list ocmd;
   ob_files : list (bytes * N * bytes);     (* name (the hash), length, SHA-1 of the content *)
-  ob_fin : N                               (* 0 running, 1 ended normally, 2 ended with an error, 3 panicked *)
+  ob_fin : N;                              (* 0 running, 1 ended normally, 2 ended with an error, 3 panicked *)
+  (* transfer statistics: the SyncStats reports (downloaded rate, uploaded rate, unexpected blocks) the task sent in this
+     step, the statistics instants (every 10 s of the virtual clock) the step crossed, and whether the order between
+     this step's counter updates and those instants is determined (false from the first step on where it is not) *)
+  ob_stats : list (option N * option N * N);
+  ob_sticks : N;
+  ob_svalid : bool
 }.
 
 Record hcase := mkcase {
@@ -119,6 +126,18 @@ Definition model_step0 (c : hcase) (ovf : bool) (st : mst) (s : stim) (p : polic
           (mkmst (ms_h st) (ms_fin st) ((h, d') :: ms_disk st) (ms_stalled st), [])
       | _, _ => (st, [])
       end
+  | SBurst m k bad =>
+      if ms_stalled st then (st, []) else
+      let '(st1, a1) := (fix go (n : nat) (st : mst) (acc : list action) : mst * list action :=
+                           match n with
+                           | O => (st, acc)
+                           | S n' => if negb (ms_fin st =? 0) then (st, acc)
+                                     else let '(st', a) := one_event c ovf st (EFrame m) p in go n' st' (acc ++ a)
+                           end) (N.to_nat k) st [] in
+      if bad && (ms_fin st1 =? 0) then
+        let '(st2, a2) := one_event c ovf st1 ERecvErr p in
+        (mkmst (ms_h st2) (ms_fin st2) (ms_disk st2) true, a1 ++ a2)
+      else (st1, a1)
   | SNop | SThen _ _ => (st, [])
   end.
 Definition model_step (c : hcase) (ovf : bool) (st : mst) (s : stim) (p : policy) : mst * list action :=
@@ -150,6 +169,36 @@ Fixpoint k_run (c : hcase) (ovf : bool) (st : mst) (steps : list (stim * policy 
   | (s, p, o) :: rest =>
       let '(st', a) := model_step c ovf st s p in
       k_event c st st' a o && k_run c ovf st' rest
+  end.
+
+(* ---- transfer statistics: the call sites (HStats.stats_ops) composed with the counters (Stats.v) ---------------- *)
+Definition report_eqb (a b : option N * option N * N) : bool :=
+  let oe (x y : option N) := match x, y with Some u, Some v => u =? v | None, None => true | _, _ => false end in
+  oe (fst (fst a)) (fst (fst b)) && oe (snd (fst a)) (snd (fst b)) && (snd a =? snd b).
+Fixpoint run_sops (ovf : bool) (ss : stats) (ops : list sop) (acc : list (option N * option N * N))
+  : result (stats * list (option N * option N * N)) :=
+  match ops with
+  | [] => Ok (ss, acc)
+  | o :: r => do x <- sstep Stats_rate_sum_u64 ovf ss o;
+              run_sops ovf (fst x) r (match snd x with Some rep => acc ++ [rep] | None => acc end)
+  end.
+Definition strip_then (s : stim) : stim := match s with SThen s' _ => s' | _ => s end.
+Definition step_sops (st : mst) (s : stim) (a : list action) : list sop :=
+  match strip_then s with
+  | SMsg m => if (ms_fin st =? 0) && negb (ms_stalled st) then stats_ops (ms_h st) (EFrame m) a else []
+  | _ => stats_ops (ms_h st) EClosed a          (* no piece frame: only what was uploaded counts *)
+  end.
+Fixpoint s_run (c : hcase) (ovf : bool) (st : mst) (ss : stats) (steps : list (stim * policy * obs)) : bool :=
+  match steps with
+  | [] => true
+  | (s, p, o) :: rest =>
+      let '(st', a) := model_step c ovf st s p in
+      if negb (ob_svalid o) then true else
+      if negb (ms_fin st' =? 0) then true else       (* the step in which the task ends is not compared, nor later ones *)
+      match run_sops ovf ss (step_sops st s a ++ repeat STick (N.to_nat (ob_sticks o))) [] with
+      | Ok (ss', reps) => list_eqb report_eqb reps (ob_stats o) && s_run c ovf st' ss' rest
+      | _ => false
+      end
   end.
 
 Definition init_mst (c : hcase) : mst :=
@@ -275,12 +324,14 @@ Definition step20 (t : N * bool) (s : stim) (p : policy) (o : obs) : option (N *
       if closed then (match ms with [] => Some t | _ => None end) else
       (* any message other than a keep-alive resets the count (it is handled before time passes) *)
       let quiet0 := match base_of s with
-                    | SMsg KeepAlive => quiet
-                    | SMsg _ => 0
+                    | SMsg KeepAlive | SBurst KeepAlive _ _ => quiet
+                    | SMsg _ | SBurst _ _ _ => 0
                     | _ => quiet
                     end in
       let '(q', ka, cl) := ticks20 (N.to_nat (ticks_of s)) quiet0 0 in
       let ended := negb (ob_fin o =? 0) in
+      (* a task that ends without its KillReq reaching the manager leaves its peer state and reservation behind *)
+      if ob_fin o =? 3 then None else
       let quiet_stimulus := match base_of s with STicks _ | SMsg KeepAlive | SNop | SStore _ _ => true | _ => false end in
       if negb quiet_stimulus && ended && negb cl then
         (* the stimulus itself ended the connection (bad frame, close, manager's answer): it is handled before any
@@ -316,8 +367,8 @@ Definition step11 (t : bool * list N) (s : stim) (p : policy) (o : obs) : option
                    end in
       let s := base_of s in
       let choked' := match s with
-                     | SMsg Choke => true
-                     | SMsg Unchoke => false
+                     | SMsg Choke | SBurst Choke _ _ => true
+                     | SMsg Unchoke | SBurst Unchoke _ _ => false
                      | _ => choked
                      end in
       let pending' := match s with SBHave i => pending ++ [i] | _ => pending end in
@@ -441,3 +492,46 @@ Definition codes08 (cs : list hcase) : list N := map (code_with true o08) cs.
 Definition codes09 (cs : list hcase) : list N := map (code_with true o09) cs.
 Definition codes09r (cs : list hcase) : list N := map (code_with false o09) cs.
 Definition codes01h (cs : list hcase) : list N := map (code_with true o01) cs.
+(* C14's measured rates: the task's behaviour and the SyncStats reports it sends agree with the model *)
+(* the same reports judged without the model: the bytes that count are read off the wire -- the payloads of the piece
+   messages the task wrote (uploaded), the payloads of the blocks that answered an outstanding request of the assigned
+   piece as C10's oracle tracks them (downloaded), the other blocks (unexpected) -- and from the second statistics instant
+   on every instant must bring one report: the means over the last two intervals, clamped to u32, and the unexpected
+   blocks of the current one *)
+Definition interval_reports (ops : list sop) (st : option N * option N * N * N * N)
+  : list (option N * option N * N) * (option N * option N * N * N * N) :=
+  fold_left (fun acc o =>
+               let '(reps, (pd, pu, cd, cu, cx)) := acc in
+               match o with
+               | SDown x => (reps, (pd, pu, cd + x, cu, cx))
+               | SUp x => (reps, (pd, pu, cd, cu + x, cx))
+               | SUnexpected => (reps, (pd, pu, cd, cu, cx + 1))
+               | STick =>
+                   let rep := match pd, pu with
+                              | Some d, Some u => [(Some (N.min ((d + cd) / 2) 4294967295), Some (N.min ((u + cu) / 2) 4294967295), cx)]
+                              | _, _ => []
+                              end in
+                   (reps ++ rep, (Some cd, Some cu, 0, 0, 0))
+               end) ops ([], st).
+Fixpoint os_run (t : t10) (st : option N * option N * N * N * N) (steps : list (stim * policy * obs)) : bool :=
+  match steps with
+  | [] => true
+  | (s, p, o) :: rest =>
+      if negb (ob_svalid o) || negb (ob_fin o =? 0) then true else
+      match msgs_of o, step10 t s p o with
+      | Some ms, Some t' =>
+          let incoming := match base_of s, t_cur t with
+                          | SMsg (Piece i b blk), Some (ci, _) =>
+                              if (i =? ci) && existsb (pair_eqb (b, len blk)) (t_out t) then [SDown (len blk)] else [SUnexpected]
+                          | SMsg (Piece _ _ _), None => [SUnexpected]
+                          | _, _ => []
+                          end in
+          let ups := flat_map (fun m => match m with Piece _ _ blk => [SUp (len blk)] | _ => [] end) ms in
+          let '(reps, st') := interval_reports (incoming ++ ups ++ repeat STick (N.to_nat (ob_sticks o))) st in
+          list_eqb report_eqb reps (ob_stats o) && os_run t' st' rest
+      | _, _ => true            (* not decodable / C10's oracle already failed: judged there *)
+      end
+  end.
+Definition codes14r (cs : list hcase) : list N :=
+  map (fun c => (if k_run c true (init_mst c) (hc_steps c) && s_run c true (init_mst c) stats_new (hc_steps c) then 0 else 1)
+                + (if os_run (mk10 None [] []) (None, None, 0, 0, 0) (hc_steps c) then 0 else 2)) cs.
